@@ -1900,6 +1900,25 @@ ctl('e6-frame-cancel-handed-to-a-context-callback', 'C11', 'E6', 'websocket/real
 	context.AfterFunc(ctx, h.stopFrameHandling)
 """, 'frame-cancel-not-handed-on', 'seed C11-25')
 
+ctl('g10-send-queue-not-drained-on-exit', 'C09', 'G10', 'websocket/handler.go',
+    """	defer func() {
+		for len(h.sendChan) != 0 {
+			<-h.sendChan
+		}
+	}()
+""",
+    """""", 'sendChan:drained-when-its-consumer-stops', 'seeds C07-28, C08-28, C09-28')
+ctl('g11-sync-clock-period-from-a-request-header', 'C08', 'G11', 'websocket/realtime.go',
+    """	return h.ClientSyncClockInterval
+}""",
+    """	if h.conn != nil {
+		if d, err := time.ParseDuration(h.conn.Request().Header.Get("posemesh-sync-clock-interval")); err == nil {
+			return d
+		}
+	}
+	return h.ClientSyncClockInterval
+}""", 'period-from-configuration', 'seed C08-26')
+
 os.makedirs(OUT, exist_ok=True)
 bad = 0
 names = set()
